@@ -57,6 +57,8 @@ type permWorld struct {
 	byName  map[string]*callee
 	descs   []string
 	mlists  []permShape
+	// one pending oracle request of the wildcard entry-context instance (callback oracleCb) exists
+	oracleReady bool
 }
 
 // allowedBy is the property's predicate: one permission matches both the
